@@ -219,7 +219,26 @@ def native_multicat_replay(dims, form):
             if bad:
                 return dict(reproduced=True, route="R1 (real MultiCategorical from a flat vector vs per-component numpy log-softmax)",
                             inputs={form: flat.tolist(), "action_dims": list(dims), "value": val.tolist()}, observed=dict(real=obs, expected=exp))
-        return dict(reproduced=False, note="4 random parameter vectors: log_prob, entropy, mode agree with the per-component computation")
+        # batched parameters (a leading batch axis): sample_and_log_prob / log_prob / entropy per batch row equal the unbatched law of that row
+        for Bn in (2, len(dims), 4):
+            raw = rng.randn(Bn, sum(dims)).astype(np.float32)
+            logp_rows = [[raw[b, o:o + d] - np.log(np.sum(np.exp(raw[b, o:o + d]))) for o, d in zip(offs, dims)] for b in range(Bn)]
+            flat = raw if form == "logits" else np.stack([np.concatenate([np.exp(l) for l in row]) for row in logp_rows]).astype(np.float32)
+            for mk_name, mk in (("flat", lambda: LD.MultiCategorical(**{form: jnp.asarray(flat)}, action_dims=dims)),
+                                ("sequence", lambda: LD.MultiCategorical(**{form: [jnp.asarray(flat[:, o:o + d]) for o, d in zip(offs, dims)]}))):
+                try:
+                    d = mk()
+                    s, lp = d.sample_and_log_prob(jax.random.key(3))
+                    s, lp = np.asarray(s), np.asarray(lp, np.float64)
+                    lp2 = np.asarray(d.log_prob(jnp.asarray(s)), np.float64)
+                    exp = np.array([sum(logp_rows[b][i][int(s[b, i])] for i in range(len(dims))) for b in range(Bn)]) if s.shape == (Bn, len(dims)) else None
+                    ok = exp is not None and lp.shape == (Bn,) and np.allclose(lp, exp, atol=1e-4) and lp2.shape == (Bn,) and np.allclose(lp2, exp, atol=1e-4)
+                    obs = dict(sample_shape=list(s.shape), returned_log_prob=lp.tolist(), log_prob_of_sample=lp2.tolist(), per_component_sum=None if exp is None else exp.tolist())
+                except Exception as e:
+                    ok, obs = False, dict(raised=f"{type(e).__name__}: {e}"[:200])
+                if not ok:
+                    return dict(reproduced=True, route="R1 (real batched MultiCategorical vs per-row, per-component numpy log-softmax)", inputs={"form": form, "parameters": mk_name, "batch": Bn, "action_dims": list(dims)}, observed=obs)
+        return dict(reproduced=False, note="4 random parameter vectors and batched parameters (flat and sequence): log_prob, entropy, mode, sample_and_log_prob agree with the per-component computation")
     return replay
 
 
@@ -272,6 +291,35 @@ def unit_multicategorical(S):
                 s2 = run(ctx, lambda p, kk: mk_flat(p).sample(kk), flat, k)
                 sc2 = [c for c in ctx.calls[n1:] if c.name.endswith(".sample")]
                 S.fact(f"{tag}/sample-one-draw-per-component", len(sc2) == len(dims), function=fn + ".sample", what="sample stacks one draw per component law")
+
+    # batched parameters (leading batch axis of 2): per row, the returned log-probability is the sum over the components OF THAT ROW (no summation across the batch)
+    dims = (2, 3)
+    tot, offs = 5, [0, 2]
+    for form in ("logits", "probs"):
+        for pform in ("flat", "sequence"):
+            ctx = Ctx()
+            flat = sym(ctx, "flat", sd((2, tot), f32))
+            k, kc = kit.key_input("key")
+            mk = (lambda p: LD.MultiCategorical(**{form: p}, action_dims=dims)) if pform == "flat" else (lambda p: LD.MultiCategorical(**{form: [p[:, o:o + d] for o, d in zip(offs, dims)]}))
+            tag = f"MultiCategorical[batch=2,{form},{pform}]"
+            with _dx.cut():
+                n0 = len(ctx.calls)
+                sm, slp = run(ctx, lambda p, kk: mk(p).sample_and_log_prob(kk), flat, k)
+                sc = [c_ for c_ in ctx.calls[n0:] if c_.name.endswith(".sample_and_log_prob")]
+                v = sym(ctx, "value", sd((2, len(dims)), jnp.int32))
+                n1 = len(ctx.calls)
+                lp = run(ctx, lambda p, vv: mk(p).log_prob(vv), flat, v)
+                lc = [c_ for c_ in ctx.calls[n1:] if c_.name.endswith(".log_prob")]
+            rp = native_multicat_replay((2, 3, 4), form)
+            ok = len(sc) == len(dims) and tuple(slp.shape) == (2,) and tuple(sm.shape) == (2, len(dims))
+            S.fact(f"{tag}/shapes", ok and tuple(lp.shape) == (2,) and len(lc) == len(dims), function=fn + ".sample_and_log_prob", replay=rp,
+                   what="batched parameters: one draw per component law, sample of shape (batch, components), log-probabilities of shape (batch,)", detail=dict(sample=str(sm.shape), logp=str(slp.shape), log_prob=str(lp.shape)))
+            if ok and tuple(lp.shape) == (2,) and len(lc) == len(dims):
+                goal = sand(*[ir.seq(slp.at((b,)), sum(ir.zreal(c_.outputs[1].at((b,))) for c_ in sc)) for b in range(2)],
+                            *[ir.seq(sm.at((b, i)), sc[i].outputs[0].at((b,))) for b in range(2) for i in range(len(dims))],
+                            *[ir.seq(lp.at((b,)), sum(ir.zreal(c_.outputs[0].at((b,))) for c_ in lc)) for b in range(2)])
+                S.prove(f"{tag}/per-row-sum-over-components", ctx, goal, function=fn + ".sample_and_log_prob", replay=rp,
+                        what="row b of the returned log-probability (and of log_prob) is the sum over the components' values for row b; row b of the sample stacks the components' draws for row b")
 
 
 UNITS = [("wrappers", unit_wrappers), ("multi-categorical", unit_multicategorical)]
